@@ -263,13 +263,15 @@ func (b *WB) verify(m *Model, o VerifyOpts) error {
 	if !o.Locked && w.IsLocked() {
 		return fmt.Errorf("%s: IsLocked()=true although no query is open", b.Name)
 	}
-	es := w.Stats().Entities
+	// ONE call: what a single Stats() call reports must be right (a second call may repair it)
+	st := w.Stats()
+	es := st.Entities
 	if es.Used != m.NAlive {
 		return fmt.Errorf("%s: Stats().Entities.Used=%d, creations-removals=%d", b.Name, es.Used, m.NAlive)
 	}
 	size := 0
-	for i := range w.Stats().Nodes {
-		size += w.Stats().Nodes[i].Size
+	for i := range st.Nodes {
+		size += st.Nodes[i].Size
 	}
 	if size != m.NAlive {
 		return fmt.Errorf("%s: Stats().Nodes sizes add up to %d, Entities.Used says %d alive", b.Name, size, m.NAlive)
@@ -486,4 +488,45 @@ func scribbleIDs(ids []ecs.ID) {
 	for i := range ids {
 		ids[i] = raw[(i*3+ecs.MaskTotalBits-1)%ecs.MaskTotalBits]
 	}
+}
+
+// consistent checks, model-free, that the world is a consistent one: Query(All()) visits alive
+// entities only, each once, as many as Stats reports alive, and the structural invariants hold.
+func (b *WB) consistent() (msg string) {
+	defer func() {
+		if p := recover(); p != nil {
+			msg = fmt.Sprintf("reading the world panicked: %v", p)
+		}
+	}()
+	if b.W.IsLocked() {
+		return "the world is locked although no query is open"
+	}
+	seen := map[ecs.Entity]bool{}
+	q := b.W.Query(ecs.All())
+	for q.Next() {
+		e := q.Entity()
+		if !b.W.Alive(e) {
+			q.Close()
+			return fmt.Sprintf("Query(All()) visits %v, which is not alive", e)
+		}
+		if seen[e] {
+			q.Close()
+			return fmt.Sprintf("Query(All()) visits %v twice", e)
+		}
+		seen[e] = true
+	}
+	if used := b.W.Stats().Entities.Used; used != len(seen) {
+		return fmt.Sprintf("Query(All()) visits %d entities, Stats reports %d alive", len(seen), used)
+	}
+	for e := range seen {
+		ids := b.W.Ids(e)
+		m := b.W.Mask(e)
+		if m.TotalBitsSet() != len(ids) {
+			return fmt.Sprintf("entity %v: Mask has %d bits, Ids lists %d", e, m.TotalBitsSet(), len(ids))
+		}
+	}
+	if err := CheckInvariants(b.W); err != nil {
+		return "structural invariant broken: " + err.Error()
+	}
+	return ""
 }
